@@ -33,6 +33,7 @@ type Verifier struct {
 	timeout    int
 	cells      map[string]*types.Var
 	renderTag  map[string]string
+	curProp    string
 }
 
 func (v *Verifier) isRepoPkg(path string) bool { return v.repoPkgs[path] }
@@ -248,6 +249,12 @@ func (v *Verifier) verifyFunc(cu *FuncUnit, con *Contract) (res *FuncResult) {
 		}
 	}()
 	for _, cl := range con.Clauses {
+		if cl.Kind == "order_only" {
+			res.Notes = append(res.Notes, "order_only: only the map-iteration-order clauses of this contract are checked (C14)")
+			return res
+		}
+	}
+	for _, cl := range con.Clauses {
 		if cl.Kind == "effects_only" {
 			res.Obls = v.effectObligations(cu, con, name)
 			res.Notes = append(res.Notes, "effects_only: body is analysed for call order / callee sets only (no symbolic execution)")
@@ -280,6 +287,12 @@ func (v *Verifier) verifyFunc(cu *FuncUnit, con *Contract) (res *FuncResult) {
 	x.frames = []*frame{fr}
 	for _, r := range fr.results {
 		st.vars[r] = Val{x.ctx.Zero(r.Type()), r.Type()}
+	}
+	for _, g := range v.cs.Ghosts {
+		if g.Pkg == cu.Pkg.PkgPath && g.Type == "int" {
+			st.ghost[g.Name] = Val{x.ctx.Const("ghost_"+g.Name+"$0", "Int"), tInt}
+			x.ghostSorts[g.Name] = "Int"
+		}
 	}
 	x.entry = st.clone()
 	bodyPos := cu.Decl.Body.Lbrace + 1
